@@ -44,6 +44,28 @@ func runC19(c *Ctx) {
 	lip := func(f sample.Vec3ToFloat, p, q vector3.Float64) {
 		c.Emit("c19.holds.lipschitz", Fs(f(p), f(q))+" "+vF(p)+" "+vF(q), "true")
 	}
+	rcone := func(a, b vector3.Float64, r1, r2 float64, p vector3.Float64) {
+		f := sdf.RoundedCone(a, b, r1, r2)
+		c.Emit("c19.rcone", vF(a)+" "+vF(b)+" "+Fs(r1, r2)+" "+vF(p), F(f(p)))
+		c.Emit("c19.holds.rcone_sign", vF(a)+" "+vF(b)+" "+Fs(r1, r2)+" "+vF(p)+" "+F(f(p)), "true")
+		c.Emit("c19.holds.rcone_outside_exact", vF(a)+" "+vF(b)+" "+Fs(r1, r2)+" "+vF(p)+" "+F(f(p)), "true")
+	}
+	// fixed corpus, runs first: the two witnesses of Props/C19Cone.lean (roundedCone_guard_needed / _guard_sharp:
+	// nested and internally tangent balls, where the formula without the early return has the wrong sign),
+	// the nested case the other way round, and a = b
+	{
+		o, e := vector3.New(0., 0., 0.), vector3.New(1., 0., 0.)
+		rcone(o, e, 3, 1, vector3.New(-2.5, 0., 0.))
+		rcone(o, e, 2, 1, vector3.New(-3., 0., 0.))
+		rcone(o, e, 2, 1, vector3.New(-1., 0., 0.))
+		rcone(o, e, 1, 3, vector3.New(3.5, 0., 0.))
+		rcone(o, e, 1, 2, vector3.New(4., 0., 0.))
+		s := vector3.New(1., 2., 3.)
+		rcone(s, s, 1, 2, vector3.New(1., 2., 6.))
+		rcone(s, s, 2, 1, vector3.New(1., 2.5, 3.))
+		lip(sdf.RoundedCone(o, e, 3, 1), vector3.New(-2.5, 0., 0.), vector3.New(-5., 0., 0.))
+		c.Note("rcone.corpus")
+	}
 	for k := 0; k < c.N; k++ {
 		ctr := c.pt(5)
 		// sphere
@@ -109,38 +131,71 @@ func runC19(c *Ctx) {
 			c.Emit("c19.holds.plane", vF(ctr)+" "+vF(n)+" "+F(h)+" "+vF(p)+" "+F(f(p)), "true")
 			lip(f, p, q)
 		}
-		// rounded cone
+		// rounded cone: admissible cones (|r1-r2| < L), near-tangent, exactly tangent, nested, and a = b.
+		// Outside |r1-r2| < L the source returns the larger ball (early return); the union-of-spheres
+		// reference of the driver is valid for every parameter choice.
 		{
 			a, b := ctr, ctr.Add(c.pt(3))
 			if a.Distance(b) < 0.2 {
 				b = a.Add(vector3.New(0., 1., 0.))
 			}
-			L := a.Distance(b)
 			r1 := c.pos() * 0.5
 			r2 := c.pos() * 0.5
-			// admissible round cone: neither sphere contains the other
-			if math.Abs(r1-r2) > 0.9*L {
-				r2 = r1
-				c.Note("rcone.equal_radii")
+			switch c.Rng.Intn(10) {
+			case 0: // nested, either way round
+				L := a.Distance(b)
+				if c.Rng.Intn(2) == 0 {
+					r1 = r2 + L*(1+c.Rng.Float64())
+				} else {
+					r2 = r1 + L*(1+c.Rng.Float64())
+				}
+			case 1: // internally tangent, exactly: dyadic coordinates, axis-parallel, |r1-r2| = L in float64
+				a = vector3.New(math.Round(ctr.X()*4)/4, math.Round(ctr.Y()*4)/4, math.Round(ctr.Z()*4)/4)
+				L := float64(c.Rng.Intn(3)+1) / 2
+				d := [3]float64{}
+				d[c.Rng.Intn(3)] = L
+				if c.Rng.Intn(2) == 0 {
+					d[0], d[1], d[2] = -d[0], -d[1], -d[2]
+				}
+				b = a.Add(vector3.New(d[0], d[1], d[2]))
+				small := float64(c.Rng.Intn(4)+1) / 4
+				if c.Rng.Intn(2) == 0 {
+					r2, r1 = small, small+L
+				} else {
+					r1, r2 = small, small+L
+				}
+				c.Note("rcone.tangent_exact")
+			case 2: // both ends at the same point
+				b = a
+				c.Note("rcone.same_centre")
+			}
+			L := a.Distance(b)
+			switch {
+			case math.Abs(r1-r2) >= L:
+				c.Note("rcone.nested_or_tangent")
+			case math.Abs(r1-r2) > 0.9*L:
+				c.Note("rcone.near_tangent")
+			default:
+				c.Note("rcone.admissible")
 			}
 			f := sdf.RoundedCone(a, b, r1, r2)
 			mid := a.Add(b).Scale(0.5)
 			size := L + r1 + r2
 			p, q := c.around(mid, size), c.around(mid, size)
-			switch c.Rng.Intn(6) {
-			case 0:
-				p = b.Add(b.Sub(a).Normalized().Scale(c.Rng.Float64() * (r2 + 1))) // beyond cap b on the axis
-				c.Note("rcone.beyond_cap_b")
-			case 1:
-				p = a.Sub(b.Sub(a).Normalized().Scale(c.Rng.Float64() * (r1 + 1))).Add(c.pt(0.05))
-				c.Note("rcone.beyond_cap_a")
-			case 2:
-				p = a.Add(b.Sub(a).Scale(c.Rng.Float64())) // on the axis
-				c.Note("rcone.on_axis")
+			if L > 0 {
+				switch c.Rng.Intn(6) {
+				case 0:
+					p = b.Add(b.Sub(a).Normalized().Scale(c.Rng.Float64() * (r2 + 1))) // beyond cap b on the axis
+					c.Note("rcone.beyond_cap_b")
+				case 1:
+					p = a.Sub(b.Sub(a).Normalized().Scale(c.Rng.Float64() * (r1 + 1))).Add(c.pt(0.05))
+					c.Note("rcone.beyond_cap_a")
+				case 2:
+					p = a.Add(b.Sub(a).Scale(c.Rng.Float64())) // on the axis
+					c.Note("rcone.on_axis")
+				}
 			}
-			c.Emit("c19.rcone", vF(a)+" "+vF(b)+" "+Fs(r1, r2)+" "+vF(p), F(f(p)))
-			c.Emit("c19.holds.rcone_sign", vF(a)+" "+vF(b)+" "+Fs(r1, r2)+" "+vF(p)+" "+F(f(p)), "true")
-			c.Emit("c19.holds.rcone_outside_exact", vF(a)+" "+vF(b)+" "+Fs(r1, r2)+" "+vF(p)+" "+F(f(p)), "true")
+			rcone(a, b, r1, r2, p)
 			lip(f, p, q)
 		}
 		// rounded cylinder
